@@ -30,6 +30,12 @@ def dur_units():
     # nano x ratio<5,7>: needs etl::lcm without the m*n overflow; its own unit so that it cannot take the others down
     us.append(Unit("C12_dur_x", "harness/C12_dur.cpp", defs=["-DC12_X=1"],
                    flavours={"quick": quick, "thorough": thorough_r0}, shards={"quick": 2, "thorough": 8}))
+    # probe: the non-member operators (tp + d, d + tp, tp - d, tp - tp, d * k, k * d, d / k, d % k) used unconditionally;
+    # a tree without them gives compile-failure|C12_ops_tp / C12_ops_scalar (the value/type matrices in C12_dur / C12_tp / C12_scalar are presence-guarded)
+    us.append(Unit("C12_ops_tp", "harness/C12_ops.cpp", flavours={"quick": ["asan-cc"], "thorough": ["asan-cc", "plain-cc"]},
+                   shards={"quick": 1, "thorough": 2}))
+    us.append(Unit("C12_ops_scalar", "harness/C12_ops.cpp", defs=["-DC12_OPS_SCALAR=1"], flavours={"quick": ["asan-cc"], "thorough": ["asan-cc", "plain-cc"]},
+                   shards={"quick": 1, "thorough": 2}))
     us.append(Unit("C12_misc", "harness/C12_misc.cpp", flavours={"quick": ["asan-cc"], "thorough": ["asan-cc", "plain-cc"]},
                    shards={"quick": 2, "thorough": 4}))
     us.append(Unit("C12_tp", "harness/C12_tp.cpp", flavours={"quick": ["asan-cc"], "thorough": ["asan-cc", "plain-cc"]},
@@ -47,7 +53,9 @@ P = dict(
                 "duration_cast, floor, ceil, round (ties to even), abs, unary +/-, ++/--, *= /= %=, implicit conversion, conversion to the common type, + - / %, all six comparisons, compound += -= %=, "
                 "time_point floor/ceil/round/+=/-=/++/--/comparisons/time_point_cast/converting constructor, named typedefs nanoseconds..years and literals; "
                 "declared result type, reference identity and a chained use of every compound / increment operator; member *= /= %= (and the free d*s, s*d, d/s, d%s where tetl declares them) "
-                "with 12 scalar types x 7 representations (scalar converted to rep first; value-preserving or truncating conversions only). "
+                "with 12 scalar types x 7 representations (scalar converted to rep first; value-preserving or truncating conversions only); "
+                "the non-member time_point + duration, duration + time_point, time_point - duration, time_point - time_point and duration * k, k * duration, duration / k, duration % k "
+                "(value, declared result type, commutativity) over the same period x representation matrices, incl. the fact that sys_days + days is a sys_days. "
                 "Each result is compared with std::chrono and with exact __int128 rational arithmetic, only for inputs where the exact result and the standard's own intermediates are representable "
                 "(f64: exact where the exact result is representable, else within 1 ulp of libstdc++). Result types are compared through compile-time booleans recorded at run time. "
                 "Runs under ASan+UBSan (signed overflow inside tetl on an in-domain input is a violation). Held means: no divergence and no sanitizer report on the executions listed in the evidence."),
